@@ -129,3 +129,64 @@ pub fn op_keyids(_sc: Value) -> Value {
     dev.truncate(10);
     json!({"cases": cases, "keys": good.len(), "deviations": dev})
 }
+
+/// C01 replay of Key::verify wiring counterexamples: for every key type a root signed by a key of that type (by tough's own signer, and — for
+/// ECDSA — by sigstore's tooling in the repository's fixtures) must verify under itself, and must stop verifying when one signature byte changes.
+pub async fn op_key_types(_sc: Value) -> Value {
+    use crate::roundtrip::K;
+    let mut dev: Vec<Value> = vec![];
+    let mut cases = 0;
+    let rsa = std::fs::read("/repo/tough/tests/data/snakeoil.pem").ok();
+    let mut keys: Vec<(&str, K)> = vec![
+        ("ed25519", K(Ed25519KeyPair::generate_pkcs8(&SystemRandom::new()).unwrap().as_ref().to_vec())),
+        ("ecdsa-sha2-nistp256", K(aws_lc_rs::signature::EcdsaKeyPair::generate_pkcs8(&aws_lc_rs::signature::ECDSA_P256_SHA256_ASN1_SIGNING, &SystemRandom::new()).unwrap().as_ref().to_vec())),
+    ];
+    if let Some(r) = rsa {
+        keys.push(("rsassa-pss-sha256", K(r)));
+    }
+    for (what, k) in &keys {
+        let mut table = HashMap::new();
+        table.insert(k.id(), k.signer().tuf_key());
+        let mut roles = HashMap::new();
+        for rt in [RoleType::Root, RoleType::Timestamp, RoleType::Snapshot, RoleType::Targets] {
+            roles.insert(rt, RoleKeys { keyids: vec![k.id()], threshold: nz(1), _extra: HashMap::new() });
+        }
+        let root = Root { spec_version: "1.0.0".into(), consistent_snapshot: false, version: nz(1), expires: far(), keys: table, roles, _extra: HashMap::new() };
+        let data = root.canonical_form().unwrap();
+        let sig = k.signer().sign(&data, &SystemRandom::new()).await.unwrap();
+        let good = Signed { signed: root.clone(), signatures: vec![Signature { keyid: k.id(), sig: sig.clone().into() }] };
+        cases += 1;
+        if let Err(e) = root.verify_role(&good) {
+            dev.push(json!({"what": format!("a root signed by its own {what} key (signature made by tough's signer over the canonical form) does not verify: {e}")}));
+        }
+        let mut bad_sig = sig.clone();
+        let n = bad_sig.len();
+        bad_sig[n / 2] ^= 0x01;
+        let bad = Signed { signed: root.clone(), signatures: vec![Signature { keyid: k.id(), sig: bad_sig.into() }] };
+        cases += 1;
+        if root.verify_role(&bad).is_ok() {
+            dev.push(json!({"what": format!("a root whose only {what} signature has one bit flipped still verifies")}));
+        }
+        cases += 1;
+        let empty = Signed { signed: root.clone(), signatures: vec![Signature { keyid: k.id(), sig: Vec::new().into() }] };
+        if root.verify_role(&empty).is_ok() {
+            dev.push(json!({"what": format!("a root whose only {what} signature is empty verifies")}));
+        }
+    }
+    // fixtures signed by other tooling
+    for dir in ["hex-encoded-ecdsa-sig-keys", "pem-encoded-ecdsa-sig-keys", "ecdsa-new-type-sig-keys"] {
+        let p = format!("/repo/tough/tests/data/{dir}/root.json");
+        if let Ok(b) = std::fs::read(&p) {
+            cases += 1;
+            match serde_json::from_slice::<Signed<Root>>(&b) {
+                Err(e) => dev.push(json!({"what": format!("fixture {dir}/root.json does not parse: {e}")})),
+                Ok(r) => {
+                    if let Err(e) = r.signed.verify_role(&r) {
+                        dev.push(json!({"what": format!("fixture {dir}/root.json (ECDSA signatures made by other tooling) does not verify under its own keys: {e}")}));
+                    }
+                }
+            }
+        }
+    }
+    json!({"cases": cases, "deviations": dev})
+}
